@@ -1172,3 +1172,8 @@ CLAUSES = [
     Clause("C14.block_positive", bp_cases, bp_check, tol="exact", chunk=2, weight=0.3, probe=4,
            doc="is_block_positive on operators with closed-form k-block positivity (margin 0.02)"),
 ]
+
+# layout twin (engine.call) for the deterministic clauses; sk_operator_norm / is_block_positive consume numpy's global random state
+for _c in CLAUSES:
+    if _c.name.split(".")[1] not in ("sk_operator_norm", "block_positive"):
+        _c.layout_twin = True
